@@ -40,6 +40,7 @@ def af_sets(res, tier, want_large=True):
         sets["iso4"] = afgen.iso4_sample(s, 400)
         sets["rand"] = afgen.random_afs(s, 250, 5, 8)
     sets["shaped"] = afgen.shaped()
+    sets["mid"] = afgen.mid_afs(s, 120 if tier == "thorough" else 30)
     return sets
 
 
@@ -103,9 +104,9 @@ def static_plan(tier):
     if tier == "thorough":
         return [("ref3", "compact,sparse,dup", "dfs", 400), ("iso4", "compact,sparse", "dfs", 200),
                 ("shaped", "compact,sparse,dup", "dfs", 24), ("rand", "compact,sparse", "dfs", 24),
-                ("rand", "dup", "real", 1)]
+                ("rand", "dup", "real", 1), ("mid", "compact,sparse", "dfs", 4)]
     return [("ref3", "compact,sparse,dup", "dfs", 200), ("iso4", "compact,sparse", "dfs", 64),
-            ("shaped", "compact,sparse", "dfs", 8), ("rand", "compact,sparse", "dfs", 6)]
+            ("shaped", "compact,sparse", "dfs", 8), ("rand", "compact,sparse", "dfs", 6), ("mid", "compact,sparse", "dfs", 2)]
 
 
 def nontrivial_static(segs, res, rule_kind):
@@ -148,8 +149,21 @@ def static_check(pid, tier, kinds, cert, rule_kind, rule, sems="GR,CO,PR,ST,SST,
         if extra:
             opts.update(extra)
         segs = run_static(res, "%s_%s_%s" % (pid, sname, oracle), afs, **opts)
-        t1, st = vlib.judge("TraceStatic.tla", segs, res.wd, "%s_%s_%s" % (pid, sname, oracle))
+        t1, st = vlib.judge("TraceStatic.tla", segs, res.wd, "%s_%s_%s" % (pid, sname, oracle), shards=8 if sname in ("mid", "shaped") else None)
         res.add_judge(sname, t1, st, only_props={pid})
+        allsegs += segs
+    if "DC" in kinds or "DS" in kinds:
+        # the same queries put, in sequences with repetitions, to solver objects that are reused (stale per-object state shows only then)
+        want = [k for k in ("DC", "DS") if k in kinds]
+        pool = random.Random(seed()).sample(sets["ref3"], 120) + sets["shaped"] + sets["rand"][:120] + sets["mid"][:10]
+        afile = os.path.join(res.wd, "seq.afs.jsonl")
+        out = os.path.join(res.wd, "seq.ndjson")
+        afgen.write(afile, pool)
+        vlib.vh(["seq", "--afs", afile, "--out", out, "--present", "compact", "--backends", "cadical", "--seed", seed(), "--emitq", "yes",
+                 "--sems", sems, "--threads", vlib.NCPU])
+        segs = [[e for e in s if e["ev"] in ("af",) or (e["ev"] == "q" and e["kind"] in want)] for s in vlib.segments(out, openers=("af",))]
+        t1, st = vlib.judge("TraceStatic.tla", segs, res.wd, pid + "_seq", shards=8)
+        res.add_judge("reused_solver_objects", t1, st, only_props={pid})
         allsegs += segs
     res.nontrivial = nontrivial_static(allsegs, res, rule_kind)
     res.rule = rule
